@@ -531,6 +531,9 @@ func match(pattern ast.Atom, subst *unionfind.UnionFind) (bool, *unionfind.Union
 		// First argument is indeed a pair. Bind.
 		nsubst, err := unionfind.UnifyTermsExtend([]ast.BaseTerm{leftVar, rightVar}, []ast.BaseTerm{fst, snd}, *subst)
 		if err != nil {
+			if leftVar == rightVar {
+				return false, nil, nil // :match_pair(P, X, X) does not match a pair of different components.
+			}
 			return false, nil, fmt.Errorf("This should never happen for %v", pattern)
 		}
 		return true, &nsubst, nil
@@ -556,6 +559,9 @@ func match(pattern ast.Atom, subst *unionfind.UnionFind) (bool, *unionfind.Union
 		// First argument is indeed a cons. Bind.
 		nsubst, err := unionfind.UnifyTermsExtend([]ast.BaseTerm{leftVar, rightVar}, []ast.BaseTerm{hd, tail}, *subst)
 		if err != nil {
+			if leftVar == rightVar {
+				return false, nil, nil // :match_cons(L, X, X) does not match unless head and tail are equal.
+			}
 			return false, nil, fmt.Errorf("This should never happen for %v", pattern)
 		}
 		return true, &nsubst, nil
